@@ -170,6 +170,17 @@ def plan(uni, rng, n_hist, hist_len, first_h):
     return hists, total_pairs - len(uncovered), total_pairs
 
 
+def base_histories(uni, rng, first_h):
+    """Every query of the universe from every base configuration of the model
+    (the query transitions of the vacuity probe), in a seeded order."""
+    out = []
+    for n, ops in enumerate(uni["bases"]):
+        qs = list(uni["queries"])
+        rng.shuffle(qs)
+        out.append({"h": first_h + n, "fresh": False, "ops": list(ops) + qs})
+    return out
+
+
 # -------------------------------------------------------------------- Go side
 class Crash(Exception):
     """The test process (= the server) went down twice on the same input."""
@@ -268,6 +279,8 @@ def parallel(jobs, width):
 # ------------------------------------------------------------------ judging
 _slot_lock = threading.Lock()
 _slots = list(range(6))
+# Lines that only a recorded deviation of the rewrite table (an open finding of C06) explains.
+DEVS = {"n": 0, "first": []}
 
 
 def validate(ctx, path, nrows):
@@ -286,6 +299,9 @@ def validate(ctx, path, nrows):
     v = r["vectors"][-1]
     if v["n"] != nrows:
         raise vlib.Inconclusive("TraceAdGuardHome consumed %s of %d lines of %s" % (v["n"], nrows, path))
+    with _slot_lock:
+        DEVS["n"] += v["devs"]["n"]
+        DEVS["first"] += [dict(d, trace=os.path.basename(os.path.dirname(path))) for d in v["devs"]["first"]][:5]
     return v["bad"]
 
 
@@ -409,10 +425,12 @@ def run(ctx):
         procs, a_hists, a_len, b_hists, b_len = 4, 22, 130, 22, 140
     plans, covered, pairs = [], 0, 0
     hists, covered, pairs = plan(uni, rng, procs * a_hists, a_len, 1)
+    bases = base_histories(uni, rng, 900)
     for p in range(procs):
         mine = hists[p * a_hists:(p + 1) * a_hists]
         mine[0]["fresh"] = True       # the first history of a process starts from the boot state
-        plans.append(mine)
+        # the bases' query transitions: on one system with the default log buffer, on one with the small one
+        plans.append(mine + ([dict(b, h=b["h"] + 10 * p) for b in bases] if p < 2 else []))
     ctx.log("plan: %d histories, %d steps, %d/%d (admin call, query) pairs followed up" % (
         len(hists), sum(len(h["ops"]) for h in hists), covered, pairs))
 
@@ -429,6 +447,12 @@ def run(ctx):
         sum(len(r) for k, (_, r) in traces.items() if k[0] == "B"), time.time() - t0))
 
     verdicts = parallel([(k, (lambda k=k: validate(ctx, traces[k][0], len(traces[k][1])))) for k in traces], 4)
+    main_devs = dict(DEVS, first=list(DEVS["first"]))
+    if main_devs["n"]:
+        ctx.log("NOTE: %d query lines are explained only by open findings of C06 (rewrite table: one of several equally specific "
+                "wildcard entries answers / an exact entry of the other family does not shadow a wildcard / an exception on a "
+                "canonical name cancels the CNAME); log and statistics agree with what was answered.  e.g. %s" % (
+                    main_devs["n"], main_devs["first"][:2]))
 
     # ---- rejected lines: reproduce on a fresh boot
     nbad, flaky, confirmed = 0, [], []
@@ -488,6 +512,7 @@ def run(ctx):
         "pairs_admin_call_then_query_covered": covered, "pairs_total": pairs,
         "universe_admin_calls": len(uni["admin"]), "universe_queries": len(uni["queries"]),
         "probe_transitions": len(edges),
+        "lines_explained_only_by_open_C06_findings": main_devs["n"], "first_such_lines": main_devs["first"][:5],
         "histories_with_rejected_line": nbad, "reproduced": len(confirmed), "unreproduced": flaky,
         "binding_demo": selftest, "negative_configurations": bg.get("neg"),
         "exhaustive": False,
